@@ -145,9 +145,17 @@ def check_validator(fx, rep, b):
                 recv_locals = {m["local"] for m, _ in F.walk(c["recv"]) if m.get("k") == "Path" and m.get("res") == "local"}
                 on_inst = inst_local in recv_locals
                 branch = n["then"] if neg else n.get("else")
-                rejects = branch is not None and any(r.get("k") == "Ret" for r, _ in F.walk(branch))
-                before_ok = T._span_key(n["span"])[2] <= T._span_key(okn["span"])[1]
-                if on_inst and rejects and before_ok:
+                jd_branch = n.get("else") if neg else n["then"]
+                ok_in = lambda br: br is not None and any(x is okn for x, _ in F.walk(br))
+                has_ok_ctor = lambda br: any(x.get("k") == "Call" and (F.path_def(x["f"]) or "").endswith("::Ok") and not x.get("exp") for x, _ in F.walk(br))
+                has_err_ctor = lambda br: any(x.get("k") == "Call" and (F.path_def(x["f"]) or "").endswith("::Err") and not x.get("exp") for x, _ in F.walk(br))
+                returns = branch is not None and any(r.get("k") == "Ret" for r, _ in F.walk(branch))
+                # form 1: `if !is { return Err }` ... Ok(t) after the If
+                form1 = returns and not ok_in(branch) and T._span_key(n["span"])[2] <= T._span_key(okn["span"])[1]
+                # form 2: `if is { Ok(t) } else { Err(..) }` — the Ok lives in the JUMPDEST branch, the other branch
+                # builds an error and no Ok
+                form2 = branch is not None and ok_in(jd_branch) and not has_ok_ctor(branch) and (returns or has_err_ctor(branch))
+                if on_inst and (form1 or form2):
                     ok_c = True
     rep.oblige(ok_c, "R08.1", "is-jumpdest", w, "the validator does not reject a target whose instruction is not the JUMPDEST opcode (on the instruction fetched for that target, before returning Ok)")
 
